@@ -213,7 +213,10 @@ class History(RuleBasedStateMachine):
 
     def _compile(self, srcs, bits, mode):
         vec = gopt.vector_from_bits(bits)
-        if mode == "shared":
+        if mode == "none":
+            vec = dict(repo.DEFAULTS)  # options omitted: the API defaults apply
+            opts = None
+        elif mode == "shared":
             opts = self.shared.setdefault(bits, self.comp.CompileOptions(**vec))
             # a shared object must still hold the values it was created with (checked below after each call)
         elif mode == "dict":
@@ -223,7 +226,7 @@ class History(RuleBasedStateMachine):
         src_arg = dict(srcs) if len(srcs) > 1 else srcs[""]
         before_opts, before_src = copy.deepcopy(opts), copy.deepcopy(src_arg)
         try:
-            res = self.comp.compile_code(src_arg, opts)
+            res = self.comp.compile_code(src_arg) if mode == "none" else self.comp.compile_code(src_arg, opts)
         except BaseException as e:
             raise Violation("C11:compile_code-raises:" + type(e).__name__, {"error": repr(e)[:300], "log": self.log[-6:]})
         key = sha([srcs, vec])
@@ -264,15 +267,15 @@ class History(RuleBasedStateMachine):
             st_.classes["verdict:" + ("error" if "error" in got else "code")] += 1
         self.last = (srcs, bits)
 
-    @rule(r=reqs, bits=st.sampled_from(VEC_BITS), mode=st.sampled_from(["fresh", "shared", "dict"]))
+    @rule(r=reqs, bits=st.sampled_from(VEC_BITS), mode=st.sampled_from(["fresh", "shared", "dict", "none"]))
     def compile(self, r, bits, mode):
         bits &= ~64  # tail_call_optimization off: many valid programs are rejected with it, which adds nothing here
         self._compile(r, bits, mode)
 
-    @rule(i=st.integers(0, 4), bits=st.sampled_from(VEC_BITS))
-    def compile_directive_source_with_shared_options(self, i, bits):
+    @rule(i=st.integers(0, 4), bits=st.sampled_from(VEC_BITS), mode=st.sampled_from(["shared", "shared", "none"]))
+    def compile_directive_source_with_shared_options(self, i, bits, mode):
         d = [r for r in self.fixed if "pytrapic:" in r[""]]
-        self._compile(d[i % len(d)], bits & ~64, "shared")
+        self._compile(d[i % len(d)], bits & ~64, mode)
 
     @rule(i=st.integers(0, 4), bits=st.sampled_from(VEC_BITS))
     def compile_erroring(self, i, bits):
